@@ -294,6 +294,36 @@ def b_cellparam_card(ch):
     return st
 
 
+REF_FAULTS = {
+    # name: (extra text on cell 1, extra cell cards, field before the mnemonic of surface 1, extra surface cards, extra data)
+    'none': ('', [], '', [], []),
+    'surface-undefined-tr': ('', [], '7 ', [], []),
+    'surface-periodic': ('', [], '-2 ', [], []),
+    'trcl-undefined-tr': ('trcl=7', [], '', [], []),
+    'fill-undefined-tr': ('fill=1 (7)', ['11 0 -2 u=1 imp:n=1', '12 0 2 u=1 imp:n=1'], '', [], []),
+    'fill-missing-universe': ('fill=5', [], '', [], []),
+    'like-missing-cell': ('', ['5 like 9 but trcl=(20 0 0)'], '', [], []),
+    'undefined-surface': ('-77', [], '', [], []),
+    'undefined-cell-in-complement': ('#77', [], '', [], []),
+    'duplicate-cell-number': ('', ['1 0 2 -3 imp:n=1'], '', ['3 px 20'], []),
+    'duplicate-surface-number': ('', [], '', ['1 so 6'], []),
+    'duplicate-tr-number': ('', [], '8 ', [], ['tr8 1 0 0', 'tr8 2 0 0']),
+}
+
+
+def b_references(ch):
+    """numbers that refer to nothing, or that are defined twice (MCNP stops on all of them)"""
+    fault = ch.choose('fault', list(REF_FAULTS), free=True)
+    on1, cells, trfield, surfs, data = REF_FAULTS[fault]
+    st = St('c17 references')
+    st.cells = ['1 0 -1 %s imp:n=1' % on1, '2 0 1 imp:n=0'] + cells
+    st.surfs = ['1 %sso 5' % trfield, '2 px 0'] + surfs
+    st.data = ['m1 13027 1'] + data
+    st.fault = None if fault == 'none' else 'reference:' + fault
+    st.site = fault
+    return st
+
+
 def b_importance(ch):
     ncells = 4
     fault = ch.choose('fault', ['none', 'imp:p-short', 'imp:p-long', 'imp:n-short-vs-p', 'three-cards',
@@ -356,6 +386,7 @@ def scenarios(tier):
         Scn('lattice', b_lattice, None, None, 'missing option, wrong cell, wrong dimensionality, array length'),
         Scn('lattice-arg', b_lattice_arg, None, None, 'malformed --lattice strings'),
         Scn('lat-value', b_lat_value, None, None, 'LAT values other than 1 and 2'),
+        Scn('references', b_references, None, None, 'undefined or doubly defined numbers'),
         Scn('cell-parameter-cards', b_cellparam_card, None, None, 'U / FILL / LAT / TRCL given on data cards'),
         Scn('importance', b_importance, None, None, 'IMP cards of unequal length'),
         Scn('fractions', b_fractions, None, None, 'mixed-sign material fractions'),
